@@ -123,6 +123,10 @@ class Acceptor:
         self.dispatched_keys = set()
         self.tolerate = set()      # rule ids that are reported but do not abort (known findings mode)
         self.threw = False
+        self.weak = False
+        self.weak_pending = False
+        self.weak_prev = {}
+        self.weak_grow = {}
         self.gsite_by_name = {g['name']: g for g in self.ix.gsites}
 
     # ------------------------------------------------------------------ coverage
@@ -264,8 +268,43 @@ class Acceptor:
             self.reject({'C18', 'C20'}, 'payload', 'intact payload', got)
         if v is not None and got.v != v:
             self.reject(tags, rule + '/value', '%s v=%s' % (site, v), got)
+        if got.extra and mi is not None:
+            self.check_reads(kind, got, mi, own_entry)
         self.take()
         return got
+
+    def check_reads(self, kind, got, mi, own_entry=False):
+        """in-callback reads of the Fsm& argument: active ids (C19) and OR flags (C17)"""
+        for tok in got.extra:
+            if tok.startswith('cs='):
+                ids = [int(x) for x in tok[3:].split(',')]
+                exp = [self.state_id(mi, sn) for sn in mi.active]
+                if ids != exp:
+                    self.reject({'C19'}, 'in-callback-active-ids', '%s shows %s under policy %d' % (mi.name, exp, self.switch), got)
+                self.hit('C19', (self.switch, kind, mi.name == self.spec['root']['name']))
+            elif tok.startswith('fl='):
+                # inside a submachine's own on_entry its region ids are not yet set in backmp11 (set in back):
+                # what flags show there is outside what C17 states
+                amb = [own_entry]
+                exp = ''.join('1' if self.shown_flag(mi, f, amb) else '0' for f in self.spec.get('flags', []))
+                if not amb[0] and tok[3:] != exp:
+                    self.reject({'C17', 'C19'}, 'in-callback-flags', '%s flags %s' % (mi.name, exp), got)
+                if not amb[0]:
+                    self.hit('C17', ('in-callback', kind, tuple(mi.active), exp))
+
+    def shown_flag(self, mi, f, amb):
+        for sn in mi.active:
+            st = mi.m['states'][sn]
+            if f in st['flags']:
+                return True
+            if st['kind'] == 'sub':
+                c = mi.children[sn]
+                if not c.running:
+                    amb[0] = True      # a submachine shown as active before it is entered: stale ids, family specific
+                    continue
+                if self.shown_flag(c, f, amb):
+                    return True
+        return False
 
     # harness records that follow a callback record: scripted submissions, failpoint
     def after_cb(self, kind_char, site, fsm):
@@ -594,12 +633,19 @@ class Acceptor:
             r = mi.active.index(src)
         self.hit('C02', (row['_site'], self.subconfig(mi, src)))
         self.hit('C19', (self.switch, mi.kind(src) == 'sub', mi.kind(tgt) == 'sub'))
-        mi.active[r] = self.phase_id('guard', src, tgt)
-        self.exit_state(mi, src, lab, occ, tags)
-        mi.active[r] = self.phase_id('exit', src, tgt)
-        self.run_actions(mi, row, lab, occ, tags)
-        mi.active[r] = self.phase_id('action', src, tgt)
-        self.enter_state(mi, tgt, lab, occ, tags, row['tgt'])
+        try:
+            mi.active[r] = self.phase_id('guard', src, tgt)
+            self.exit_state(mi, src, lab, occ, tags)
+            mi.active[r] = self.phase_id('exit', src, tgt)
+            self.run_actions(mi, row, lab, occ, tags)
+            mi.active[r] = self.phase_id('action', src, tgt)
+            self.enter_state(mi, tgt, lab, occ, tags, row['tgt'])
+        except ModelThrow:
+            if self.switch != 0 and (mi.kind(src) == 'sub' or mi.kind(tgt) == 'sub'):
+                # a non-default switch policy plus an aborted transition out of / into a submachine leaves a
+                # half-exited or never-entered submachine shown as active: continuation is only watched (C12)
+                self.weak_pending = True
+            raise
         mi.active[r] = tgt
         self.bump_epoch(mi)
         self.note_entered(mi, r, tgt)
@@ -725,6 +771,11 @@ class Acceptor:
                 self.note_entered(child, r, cfg[r])
         except ModelThrow:
             child.processing = False
+            if self.switch != 0:
+                # the enclosing region already shows the half-entered submachine: what its inner configuration
+                # is from here on is not specified by any property; the rest of the run is only watched for
+                # escapes, crashes and a wedged machine (C12)
+                self.weak_pending = True
             raise
         child.processing = False
         cont = None
@@ -1048,7 +1099,18 @@ class Acceptor:
                 self.cur_tag = r.extra[0]
                 continue
             if r.k == 'CALL':
-                self.call(r)
+                if self.weak:
+                    self.weak_call(r)
+                else:
+                    try:
+                        self.call(r)
+                    except Reject:
+                        if not self.weak_pending:
+                            raise
+                        self.weak_resync()
+                    if self.weak_pending:
+                        self.weak = True
+                        self.hit('C12', ('weak-mode', self.switch))
                 continue
             if r.k in ('STDERR', 'EXITRC'):
                 continue
@@ -1111,6 +1173,37 @@ class Acceptor:
         if nxt is not None and nxt.k == 'SNAP':
             self.take()
             self.check_snapshot(root, nxt)
+
+    def weak_resync(self):
+        while self.pos < len(self.recs) and self.recs[self.pos].k != 'CALL':
+            if self.recs[self.pos].k == 'ESC':
+                self.reject({'C12'}, 'exception-escaped', 'RET', self.recs[self.pos])
+            self.pos += 1
+
+    def weak_call(self, r):
+        """continuation after an exception left a half-entered submachine active: no prediction, only
+        'no escape, no crash, not wedged' (a stuck machine queues every event forwarded to it for ever)"""
+        op = r.extra[0]
+        snap = None
+        while self.pos < len(self.recs) and self.recs[self.pos].k != 'CALL':
+            x = self.recs[self.pos]
+            if x.k == 'ESC':
+                self.reject({'C12'}, 'exception-escaped', 'RET', x)
+            if x.k == 'SNAP':
+                snap = x
+            self.pos += 1
+        if snap is None or op != 'process':
+            return
+        levels, queues, extras = parse_snap(snap)
+        for path, (mq, dq) in queues.items():
+            prev = self.weak_prev.get(path, 0)
+            if mq > prev and mq >= 2:
+                self.weak_grow[path] = self.weak_grow.get(path, 0) + 1
+            elif mq <= prev:
+                self.weak_grow[path] = 0
+            self.weak_prev[path] = mq
+            if self.weak_grow.get(path, 0) >= 3:
+                self.reject({'C12'}, 'wedged', 'events forwarded to %s are processed' % path, snap)
 
     def call_copy(self, op, r):
         # copies are handled by the differential monitor (C15); the model only keeps instance tags alive
